@@ -124,7 +124,9 @@ fn prepare(doc: &Doc4, lang: SupportLang, emu: Emu) -> Option<ECtx> {
     // a global utility is its rule followed by its constraints; constraints are boolean atoms,
     // expressed here as extra conjuncts on the bound variable via a wrapper is not possible in R,
     // so global constraints are folded at evaluation time (see eval_global below)
-    let _ = cons;
+    if !cons.is_empty() {
+      ctx.global_cons = Some((id.clone(), cons.clone()));
+    }
     ctx.utils.insert(id.clone(), r.clone());
   }
   Some(ctx)
@@ -292,41 +294,8 @@ pub fn check_doc(lang: SupportLang, fname: &str, src: &str, doc: &Doc4, rep: &mu
 /// reference evaluation where `matches: <global>` means: the global's rule, then its constraints;
 /// a failing constraint makes the utility fail as a whole (nothing of it survives)
 fn global_aware_eval<'a>(doc: &Doc4, n: &N<'a>, ctx: &ECtx) -> Option<Env<'a>> {
-  match &doc.global {
-    None => ref_eval(doc, n, ctx),
-    Some((id, _, cons)) if cons.is_empty() => {
-      let _ = id;
-      ref_eval(doc, n, ctx)
-    }
-    Some((id, grule, cons)) => {
-      // a constrained global is only generated as a top-level conjunct `matches: G`; evaluate the
-      // conjuncts in the documented order (atomic, composite incl. matches, relational) and give
-      // `matches: G` the meaning "G's rule, then G's constraints, all or nothing"
-      let R::Obj(parts) = &doc.rule else { return ref_eval(doc, n, ctx) };
-      let mut parts: Vec<&R> = parts.iter().collect();
-      parts.sort_by_key(|p| crate::refsem::rule_env::order_key(p));
-      let mut env = Env::default();
-      for p in parts {
-        if matches!(p, R::Matches(u) if u == id) {
-          let mut e = eval(grule, n, &env, ctx)?;
-          for (var, c) in cons {
-            if let Some(b) = e.single.get(var).cloned() {
-              e = eval(c, &b, &e, ctx)?;
-            }
-          }
-          env = e;
-        } else {
-          env = eval(p, n, &env, ctx)?;
-        }
-      }
-      for (var, c) in &doc.constraints {
-        if let Some(b) = env.single.get(var).cloned() {
-          env = eval(c, &b, &env, ctx)?;
-        }
-      }
-      Some(env)
-    }
-  }
+  // the evaluation context knows the constrained global (rule_env::Ctx::global_cons), wherever it is referenced
+  ref_eval(doc, n, ctx)
 }
 
 // ------------------------------------------------------------------ generators
@@ -478,7 +447,22 @@ fn gen_doc(h: &Harvest, anchor: Option<&str>, rng: &mut Rng, depth: usize) -> Do
       gc.insert(rng.pick(&gvars).to_string(), R::Regex(format!("^{}$", rule::regex_escape(rng.pick(&h.idents).as_str()))));
     }
     global = Some(("G0".to_string(), R::Pattern(gp), gc));
-    parts.push(R::Matches("G0".into()));
+    // the reference to the (possibly constrained) global sits on the node itself or behind a relation /
+    // in an alternative, where a failed candidate must leave no trace for the next one
+    let m = R::Matches("G0".into());
+    let placed = match rng.below(8) {
+      0 | 1 => m.clone(),
+      2 | 3 => R::Has(Box::new(m.clone()), if rng.chance(1, 2) { rule::Stop::End } else { rule::Stop::Neighbor }, None),
+      4 => R::Any(vec![m.clone(), R::Kind(rng.pick(&h.kinds).clone())]),
+      5 => R::Inside(Box::new(m.clone()), rule::Stop::End, None),
+      6 => R::Follows(Box::new(m.clone()), rule::Stop::End),
+      _ => R::Precedes(Box::new(m.clone()), rule::Stop::End),
+    };
+    if parts.iter().any(|p| p.key() == placed.key()) {
+      parts.push(m);
+    } else {
+      parts.push(placed);
+    }
   }
   Doc4 { rule: R::Obj(parts), utils, constraints, global }
 }
